@@ -377,7 +377,13 @@ def rule_g(ctx):
     c12.rule_f(ctx)
 
 
+def rule_h(ctx):
+    """a blocked sender / an idle receiver is always woken when its condition becomes true (C12.b)"""
+    from . import c12
+    c12.rule_b(ctx)
+
 RULES = [
+    ("C06.h", "wake-up pairing of the mailbox (no spurious deadlock from a lost wake-up)", rule_h),
     ("C06.g", "the observed mailbox length is independent of the closed flag", rule_g),
     ("C06.f", "release/acquire floors of the idle-pool publication", rule_f),
     ("C06.a", "message counter mutated only at the reviewed sites", rule_a),
